@@ -1077,9 +1077,11 @@ class DestHandler:
             self.transmission_mode == TransmissionMode.UNACKNOWLEDGED
             and not self._checksum_verify()
         ):
+            # The File Checksum Failure fault was already declared by the verification. Only
+            # continue with the check limit handling if the fault was ignored.
             if (
-                self._declare_fault(ConditionCode.FILE_CHECKSUM_FAILURE)
-                != FaultHandlerCode.IGNORE_ERROR
+                self.states.state == CfdpState.IDLE
+                or self._params.completion_disposition == CompletionDisposition.CANCELED
             ):
                 return False
             self._start_check_limit_handling()
